@@ -143,13 +143,17 @@ Definition is_c06 (a : aidl) (d : diag) : bool :=
             "unused declared parcelable"; "declared parcelable"]%string d
   || (ctx_is "duplicated import" d && in_ranges (d_range d) (map im_sym (ai_imports a))).
 Definition corr_C06 := corr_by is_c06 false.
-Definition spec_C06 := spec_by is_c06 (fun defined a a' => sp_imports defined a ++ sp_declared defined a).
+(* every specification that rests on what a written name denotes also asks that the names are the written names *)
+Definition with_names (spec : list file_result * list file_result -> bool) (c : list file_result * list file_result) : bool :=
+  for_files (fun a a' ds0 ds => names_dotted a) c && spec c.
+Definition spec_C06 := with_names (spec_by is_c06 (fun defined a a' => sp_imports defined a ++ sp_declared defined a)).
 
 (* C07: counted per argument against the statement's table, independently of check_arg *)
 Definition dir_label_list : list string := ["missing direction"; "invalid direction"; "invalid argument"]%string.
 Definition is_c07 (a : aidl) := labelled dir_label_list.
 Definition corr_C07 := corr_by is_c07 false.
 Definition spec_C07 (c : list file_result * list file_result) : bool :=
+  for_files (fun a a' ds0 ds => names_dotted a) c &&
   for_files (fun a a' ds0 ds =>
     let dd := filter (is_c07 a') ds in
     (* "oneway method (explicit or inherited from a oneway interface)": read off the parse-stage tree, not off what
@@ -175,7 +179,7 @@ Definition corr_C08 := corr_by is_c08 false.
 (* the element categories are those of the SPECIFIED resolution (the scoping rules applied to the parse-stage tree), not the ones
    the implementation arrived at: "arrays may hold parcelables (defined, forward-declared or unknown imports)" is about what a
    name denotes, so a reference mis-resolved to a built-in must not be excused *)
-Definition spec_C08 := spec_by is_c08 (fun defined a a' => sp_containers defined a).
+Definition spec_C08 := with_names (spec_by is_c08 (fun defined a a' => sp_containers defined a)).
 
 (* C10 *)
 Definition is_c10 (a : aidl) := labelled ["redundant oneway"; "must be void"]%string.
